@@ -71,6 +71,35 @@ pub fn mutate(toks: &mut Vec<String>, rng: &mut Rng) -> String {
     let heads: Vec<usize> = (0..toks.len()).filter(|i| toks[*i].starts_with('T') || toks[*i].starts_with('Q')).collect();
     let fields: Vec<usize> = (0..toks.len()).filter(|i| toks[*i].starts_with('f')).collect();
     let idents: Vec<usize> = (0..toks.len().saturating_sub(3)).filter(|i| toks[*i] == "findex" && toks[*i + 2] == "fgeneration").collect();
+    // last byte of an archetype identifier tuple (`T<k> b.. b.. t`)
+    let id_last: Vec<usize> = (1..toks.len().saturating_sub(1)).filter(|i| toks[*i].starts_with('b') && toks[*i + 1] == "t").collect();
+    if !id_last.is_empty() && rng.below(100) < 7 {
+        // exactly one (possibly padding) bit in the last identifier byte, alone or on top of the old bits
+        let i = id_last[rng.below(id_last.len() as u64) as usize];
+        let old: u64 = toks[i][1..].parse().unwrap_or(0);
+        let bit = 1u64 << rng.below(8);
+        let new = if rng.below(2) == 0 { bit } else { old | bit };
+        toks[i] = format!("b{}", new % 256);
+        return format!("padbit@{}:{}->{}", i, old, new);
+    }
+    if idents.len() >= 2 && rng.below(100) < 7 {
+        // an identifier stored in two rows, the allocator length shrunk so that no index is missing:
+        // the row holding the highest index gets another row's identifier
+        if let (Some(apos), Some(lpos)) = (toks.iter().position(|t| t.starts_with("SAllocator")), toks.iter().position(|t| t == "flength")) {
+            let stored: Vec<usize> = idents.iter().cloned().filter(|i| *i < apos).collect();
+            let len: u64 = toks.get(lpos + 1).and_then(|t| t[1..].parse().ok()).unwrap_or(0);
+            if stored.len() >= 2 && len >= 1 {
+                if let Some(&b) = stored.iter().find(|i| toks[**i + 1] == format!("u{}", len - 1)) {
+                    let others: Vec<usize> = stored.iter().cloned().filter(|i| *i != b).collect();
+                    let a = others[rng.below(others.len() as u64) as usize];
+                    toks[b + 1] = toks[a + 1].clone();
+                    toks[b + 3] = if rng.below(3) == 0 { format!("u{}", toks[a + 3][1..].parse::<u64>().unwrap_or(0) + 1) } else { toks[a + 3].clone() };
+                    toks[lpos + 1] = format!("u{}", len - 1);
+                    return format!("dup-row-shrink@{}~{}", a, b);
+                }
+            }
+        }
+    }
     if idents.len() >= 2 && rng.below(100) < 12 {
         // two identifiers (stored or on the free list) collide on the index, generations differ or not
         let a = idents[rng.below(idents.len() as u64) as usize];
